@@ -53,9 +53,9 @@ CLAIMS = {
     ),
     "C08": dict(
         level="exploration",
-        technique="model-based stateful property testing: accounting model of every resource pool run alongside a real AudioManager over generated create / drop / finish / callback histories, probe destructors recording where resources die, plus slot-reuse scenarios for stale ids",
+        technique="model-based stateful property testing: accounting model of every resource pool run alongside a real AudioManager over generated create / drop / finish / callback histories, probe destructors recording where resources die, plus slot-reuse scenarios for stale ids, plus schedule enumeration of the create path against the audio thread's remove-and-add step through hook points H3 (baton-passing between two real threads, all ten orders)",
         text="Histories over every resource kind and every capacity in {0,1,2,3,5} are executed against the real manager; the model predicts every creation result (success iff below capacity, otherwise the documented error, never a panic), every count and capacity accessor after every step, and the callback at which each marked resource leaves (next callback if picked up, one later otherwise; tracks only when no live descendant needs them). Probe sounds/effects record the place of their destruction (never inside a callback; callbacks free no memory). Capacity-1 slots of clocks, modulators, listeners and send tracks are reused 1..4 times and the old id must keep behaving as missing. Search with shrinking.",
-        note="Interleavings inside the lock-free rings / arena of the external crates are not controlled here (whole-operation granularity, one thread); see DESIGN.md section 7.",
+        note="Schedules are controlled at the five H3 hook points (reserve, drain, push; removal pass, refill): all scenarios up to capacity 2 (thorough 3) for modulators, main-track sounds, clocks and sub-tracks are enumerated in all ten orders, larger ones are random. Interleavings inside the lock-free rings / arena of the external crates are not controlled; see DESIGN.md section 7.",
         design="5/C08",
     ),
     "C12": dict(
